@@ -859,6 +859,14 @@ def run(ctx):
         for sig, observed, expected in res:
             failures.append({'sig': sig, 'input': inp, 'observed': observed, 'expected': expected,
                              'how': 'harness/props/C14.py check(input) on the real ssh_audit classes'})
+    # ---- comparisons made by several threads at once (as the worker threads of a multi-target scan make them): every thread keeps getting the
+    # answers it gets alone.  A schedule-dependent stage: a run that passes proves nothing, a failure is a failure (seed C14-11: a class-level
+    # memo written in two statements)
+    fails_c = concurrent_compare(r)
+    cov.add(('concurrent-compare',), True, tags=['concurrent-compare'])
+    for f in fails_c[:3]:
+        failures.append({'sig': {'kind': 'compare_differs_under_concurrency'}, 'input': f['input'], 'observed': f['observed'], 'expected': f['expected'],
+                         'how': 'harness/props/C14.py concurrent_compare(): real Software.compare_version from 4 threads'})
     # minimal failures first
     failures.sort(key=lambda f: len(json.dumps(f['input'])))
     for k, v in sorted(corr_hist.items()):
@@ -874,9 +882,46 @@ def run(ctx):
                              'a Dropbear testN pre-release of exactly the first version of an algorithm is not counted as having it (theorem dropbear_test_older_than_release)']}
 
 
+def concurrent_compare(r, rounds=12000):
+    import sys as _sys
+    import threading
+    from ssh_audit.software import Software
+    from ssh_audit.banner import Banner
+    pairs = [('OpenSSH_9.9', '10.0'), ('OpenSSH_10.0', '9.9'), ('OpenSSH_7.4', '6.5'), ('OpenSSH_6.5', '7.4'), ('OpenSSH_8.8', '8.8'), ('OpenSSH_7.2', '10.1'),
+             ('dropbear_2020.81', '2013.56'), ('dropbear_2012.55', '2020.79'), ('libssh-0.10.6', '0.7.0'), ('libssh-0.7.0', '0.10.6')]
+    sws = [(Software.parse(Banner.parse('SSH-2.0-' + a)), b) for a, b in pairs]
+    alone = [sw.compare_version(b) for sw, b in sws]
+    bad = []
+    old = _sys.getswitchinterval()
+    _sys.setswitchinterval(1e-6)
+    try:
+        def work(k):
+            idx = list(range(len(sws)))
+            for i in range(rounds):
+                j = idx[(i * (k + 1) + k) % len(idx)]
+                sw, b = sws[j]
+                got = sw.compare_version(b)
+                if got != alone[j] and len(bad) < 5:
+                    bad.append({'input': {'concurrent': True, 'software': pairs[j][0], 'other': b}, 'observed': got, 'expected': alone[j]})
+        ts = [threading.Thread(target=work, args=(k,)) for k in range(4)]
+        for t in ts:
+            t.start()
+        for t in ts:
+            t.join()
+    finally:
+        _sys.setswitchinterval(old)
+    return bad
+
+
 def replay(obj):
     f = obj.get('failure', obj)
     inp = f['input']
+    if inp.get('concurrent'):
+        import random as _random
+        bad = concurrent_compare(_random.Random(1), rounds=40000)
+        print('comparisons that differ from the single-threaded answer:', bad[:3])
+        print('PROPERTY FAILS' if bad else 'every thread got the single-threaded answers (this schedule)')
+        return 1 if bad else 0
     print('replaying', json.dumps(inp))
     if inp['check'] in ('compare', 'trans'):
         p = inp['product']
